@@ -23,6 +23,8 @@ enum AView {
     Text(String),
     El(String, Vec<AView>),
     Sus(Vec<AView>, Vec<AView>),
+    /// `Transition`: a Suspense whose content lives in a detached suspense scope
+    Trans(Vec<AView>, Vec<AView>),
     Async(u32, Vec<AView>),
     /// a dynamic block `(move || view)`: its content is built inside an effect scope
     Dyn(Vec<AView>),
@@ -34,6 +36,7 @@ fn parse(s: &Sx) -> AView {
         "text" => AView::Text(unhex(l[1].atom())),
         "el" => AView::El(unhex(l[1].atom()), l[2].list().iter().map(parse).collect()),
         "sus" => AView::Sus(l[1].list().iter().map(parse).collect(), l[2].list().iter().map(parse).collect()),
+        "trans" => AView::Trans(l[1].list().iter().map(parse).collect(), l[2].list().iter().map(parse).collect()),
         "async" => AView::Async(l[1].num(), l[2].list().iter().map(parse).collect()),
         "dyn" => AView::Dyn(l[1].list().iter().map(parse).collect()),
         x => panic!("bad async view {x}"),
@@ -75,6 +78,13 @@ fn build(v: &AView, gates: &Gates) -> View {
                 Suspense(SuspenseProps::builder().fallback(move || build_all(&fb, &g1)).children(children).build())
             })
         }
+        AView::Trans(fb, ch) => {
+            let (fb, ch, g1, g2) = (fb.clone(), ch.clone(), gates.clone(), gates.clone());
+            let children = Children::new(move || build_all(&ch, &g2));
+            sycamore_core::component_scope(move || {
+                Transition(SuspenseProps::builder().fallback(move || build_all(&fb, &g1)).children(children).build())
+            })
+        }
         AView::Dyn(ch) => {
             let (ch, gates) = (ch.clone(), gates.clone());
             View::from_dynamic(move || build_all(&ch, &gates))
@@ -96,7 +106,7 @@ fn gates_of(v: &AView, out: &mut Vec<u32>) {
     match v {
         AView::Text(_) => {}
         AView::El(_, ch) => ch.iter().for_each(|c| gates_of(c, out)),
-        AView::Sus(fb, ch) => {
+        AView::Sus(fb, ch) | AView::Trans(fb, ch) => {
             fb.iter().for_each(|c| gates_of(c, out));
             ch.iter().for_each(|c| gates_of(c, out));
         }
